@@ -223,15 +223,30 @@ func (s *JSONDB) FindByRequestID(dagFile string, requestID string) (*model.Statu
 	if requestID == "" {
 		return nil, errRequestIDNotFound
 	}
+	// As in ReadStatusRecent: when a listed file is gone (the run's file has
+	// just been replaced by its compacted copy), list again rather than
+	// report a recorded run as not found.
+	for listing := 1; ; listing++ {
+		ret, vanished, err := s.findByRequestID(dagFile, requestID)
+		if !vanished || listing == maxListings {
+			return ret, err
+		}
+	}
+}
+
+func (s *JSONDB) findByRequestID(dagFile string, requestID string) (ret *model.StatusFile, vanished bool, err error) {
 	matches, err := filepath.Glob(s.globPattern(dagFile))
 	if err != nil {
-		return nil, err
+		return nil, false, err
 	}
 	sort.Sort(sort.Reverse(sort.StringSlice(matches)))
 	verifPoint("listed", dagFile)
 	for _, f := range matches {
 		verifPoint("visit", f)
 		status, err := ParseFile(f)
+		if errors.Is(err, fs.ErrNotExist) {
+			return nil, true, fmt.Errorf("%w : %s", persistence.ErrRequestIDNotFound, requestID)
+		}
 		if err != nil {
 			log.Printf("parsing failed %s : %s", f, err)
 			continue
@@ -240,10 +255,10 @@ func (s *JSONDB) FindByRequestID(dagFile string, requestID string) (*model.Statu
 			return &model.StatusFile{
 				File:   f,
 				Status: status,
-			}, nil
+			}, false, nil
 		}
 	}
-	return nil, fmt.Errorf("%w : %s", persistence.ErrRequestIDNotFound, requestID)
+	return nil, false, fmt.Errorf("%w : %s", persistence.ErrRequestIDNotFound, requestID)
 }
 
 func (s *JSONDB) RemoveAll(dagFile string) error {
